@@ -588,6 +588,7 @@ func runC02(ctx *core.Ctx) {
 func c02More(ctx *core.Ctx) {
 	p := ctx.P
 	ctx.Rule("N10", "the tokenizer sees the line as written: the string handed to the tokenizer by runLine is the line itself (or a re-slice of it), never the result of a call that rewrites it (strings.TrimSpace strips form feeds, non-breaking spaces and other characters the tokenizer treats as text)", 1)
+	ctx.Rule("N12", "one tokenizer: every value returned by the tokenizer is nil or the result of appending a finished word to its list; the line is never split by any other means", 1)
 	ctx.Rule("N11", "a word only grows: inside the tokenizer every new value of the word being assembled is either the empty string (a new word starts after the finished one was appended to the result) or the previous value with a chunk appended; an assignment that does not extend the previous value drops the text collected so far", 1)
 	runLine := ctx.Need("N10", "testscript", "(*TestScript).runLine")
 	parse := ctx.Need("N11", "testscript", "(*TestScript).parse")
@@ -666,6 +667,34 @@ func c02More(ctx *core.Ctx) {
 			continue
 		}
 		bad = "the word is replaced by " + l.Val.String() + " instead of being extended (text collected before is lost)"
+	}
+	// N12: what parse returns is the list it assembled word by word
+	{
+		okRet := true
+		nret := 0
+		for _, r := range g.Returns() {
+			nret++
+			v := ssax.ReturnValues(r)[0]
+			_, lv := phiWeb(v)
+			if _, isPhi := v.(*ssa.Phi); !isPhi {
+				lv = []leaf{{Val: v}}
+			}
+			for _, l := range lv {
+				if ssax.IsNil(l.Val) {
+					continue
+				}
+				c, ok := l.Val.(*ssa.Call)
+				if !ok || !isBuiltinCall(c, "append") {
+					okRet = false
+					continue
+				}
+				elems := variadicElems(c.Call.Args[1])
+				if len(elems) != 1 || !inWeb[elems[0]] {
+					okRet = false
+				}
+			}
+		}
+		ctx.Check(okRet && nret > 0, "N12", "testscript.parse#result", parse.Pos(), "the tokenizer returns only the list it built by appending finished words (no other way of splitting the line, such as strings.Fields, which splits at every Unicode space)")
 	}
 	ctx.Check(bad == "", "N11", "testscript.parse#word-grows", parse.Pos(), "every new value of the word under construction is \"\" or the old value plus a chunk %s", bad)
 }
